@@ -390,3 +390,7 @@ def run(ctx: Context) -> None:  # noqa: F811
 
     ctx.rep.rule('C05.R10', 'the waiter is told the truth: the events report PoolTimeout only when the wait really timed out (a request that was given a connection is not failed)')
     backend.primitives(ctx, 'C05.R10', ['AsyncEvent', 'Event'])
+    from . import plumb
+
+    ctx.rep.rule('C05.R11', 'a connection created for a request accepts that request: the origin it is created with is stored unchanged, so the origin gate - which runs before the failure-marking try - cannot reject it (a rejected fresh connection stays CONNECTING forever)')
+    plumb.plumbing(ctx, 'C05.R11', ['origin', 'remote_origin'])
